@@ -4,13 +4,17 @@ import (
 	"encoding/json"
 	"fmt"
 	"os"
+	"runtime"
 	"strconv"
 	"strings"
 	"testing"
 	"time"
 
+	"net/http/httptest"
+
 	"github.com/elnosh/gonuts/cashu"
 	"github.com/elnosh/gonuts/cashu/nuts/nut04"
+	"github.com/gorilla/websocket"
 	"pgregory.net/rapid"
 
 	"verif/harness/dbproxy"
@@ -25,12 +29,13 @@ import (
 // the scheduler adopts as an external task), interleaved at storage / Lightning call granularity.
 
 type caseSpec struct {
-	Mints   int    `json:"mints"`
-	Polls   int    `json:"polls"`
-	Notify  bool   `json:"notify"`
-	Polled  bool   `json:"polled_before"` // quote already PAID in storage before the race starts
-	Seed    uint64 `json:"seed"`
-	Choice  []int  `json:"choice,omitempty"`
+	Mints  int    `json:"mints"`
+	Polls  int    `json:"polls"`
+	Notify bool   `json:"notify"`
+	Polled bool   `json:"polled_before"`          // quote already PAID in storage before the race starts
+	WS     bool   `json:"ws_subscribe,omitempty"` // a NUT-17 websocket subscription to the quote arrives during the race
+	Seed   uint64 `json:"seed"`
+	Choice []int  `json:"choice,omitempty"`
 }
 
 type execResult struct {
@@ -45,8 +50,21 @@ type execResult struct {
 	final     string
 }
 
+// serverSideSenders counts the mint's goroutines that may still send to a websocket client.
+func serverSideSenders() int {
+	buf := make([]byte, 1<<20)
+	buf = buf[:runtime.Stack(buf, true)]
+	return strings.Count(string(buf), "mint.listenForSubscriptionUpdates(") + strings.Count(string(buf), "subscriptionRequest.func1(")
+}
+
+func wsSubscribe(quoteID, subID string, id int) []byte {
+	b, _ := json.Marshal(map[string]any{"jsonrpc": "2.0", "method": "subscribe", "id": id,
+		"params": map[string]any{"kind": "bolt11_mint_quote", "subId": subID, "filters": []string{quoteID}}})
+	return b
+}
+
 func run(t world.T, cs caseSpec, choose sched.Chooser) execResult {
-	w := world.New(t, world.Config{CaseSeed: 300 + cs.Seed, FeeMode: lnmodel.FeeZero})
+	w := world.New(t, world.Config{CaseSeed: 300 + cs.Seed, FeeMode: lnmodel.FeeZero, WithServer: cs.WS})
 	defer w.Close()
 	q, err := w.RequestMintQuote(8, nil)
 	if err != nil {
@@ -55,6 +73,90 @@ func run(t world.T, cs caseSpec, choose sched.Chooser) execResult {
 	w.PayInvoice(q)
 	if cs.Polled {
 		w.PollMintQuote(q)
+	}
+	// websocket subscriber: connect and find the connection's reader goroutine (it makes the storage calls of every
+	// request on this connection) with a warm-up subscription before the race
+	var wsConn *websocket.Conn
+	var wsGid int64
+	if cs.WS {
+		srv := httptest.NewServer(w.Handler())
+		defer srv.Close()
+		c, _, err := websocket.DefaultDialer.Dial("ws"+strings.TrimPrefix(srv.URL, "http")+"/v1/ws", nil)
+		if err != nil {
+			t.Fatalf("setup: websocket dial: %v", err)
+		}
+		wsConn = c
+		// everything the mint sends is drained all the time; at the end both subscriptions are cancelled and the
+		// connection is only closed once no server-side goroutine is left that could still write to this client
+		// (closing earlier makes the mint panic with "send on closed channel" - see DESIGN 10.2, observations)
+		acks := make(chan int, 16)
+		go func() {
+			for {
+				_, msg, err := c.ReadMessage()
+				if err != nil {
+					close(acks)
+					return
+				}
+				var m struct {
+					ID     *int            `json:"id"`
+					Result json.RawMessage `json:"result"`
+					Error  json.RawMessage `json:"error"`
+				}
+				if json.Unmarshal(msg, &m) == nil && m.ID != nil && (m.Result != nil || m.Error != nil) {
+					acks <- *m.ID
+				}
+			}
+		}()
+		defer func() {
+			for i, sub := range []string{"warmup", "race"} {
+				b, _ := json.Marshal(map[string]any{"jsonrpc": "2.0", "method": "unsubscribe", "id": 100 + i, "params": map[string]any{"subId": sub}})
+				c.WriteMessage(websocket.TextMessage, b)
+			}
+			got := 0
+			timeout := time.After(2 * time.Second)
+		wait:
+			for got < 2 {
+				select {
+				case id, ok := <-acks:
+					if !ok {
+						break wait
+					}
+					if id >= 100 {
+						got++
+					}
+				case <-timeout:
+					break wait
+				}
+			}
+			for i := 0; i < 2000 && serverSideSenders() > 0; i++ {
+				time.Sleep(200 * time.Microsecond)
+			}
+			c.Close()
+		}()
+		// (for another, unpaid quote: whatever the subscription does with it cannot touch the quote of the race)
+		other, err := w.RequestMintQuote(1, nil)
+		if err != nil {
+			t.Fatalf("setup: %v", err)
+		}
+		from := w.DB.LogLen()
+		if err := c.WriteMessage(websocket.TextMessage, wsSubscribe(other.ID, "warmup", 0)); err != nil {
+			t.Fatalf("setup: websocket write: %v", err)
+		}
+		self := dbproxy.Gid()
+		w.DB.WaitFor(from, func(c dbproxy.Call) bool {
+			if c.Method == "GetMintQuote" && c.Gid != self {
+				wsGid = c.Gid
+				return true
+			}
+			return false
+		}, 2*time.Second)
+		if wsGid == 0 {
+			t.Fatalf("setup: the websocket subscription made no storage call")
+		}
+		// wait until the reader is back at the socket
+		for i := 0; i < 4000 && !strings.HasPrefix(dbproxy.GoroutineWaitReason(wsGid), "IO wait"); i++ {
+			time.Sleep(50 * time.Microsecond)
+		}
 	}
 	s := sched.New()
 	w.DB.Hook = func(c *dbproxy.Call) error { s.Yield(c.Method + ":" + stateArg(c.Arg)); return nil }
@@ -87,6 +189,15 @@ func run(t world.T, cs caseSpec, choose sched.Chooser) execResult {
 		s.Go("notify", func() (any, error) {
 			w.Net.Deliver(q.Hash)
 			s.WaitExternalSettled(wt, 3*time.Second)
+			return nil, nil
+		})
+	}
+	if wsConn != nil {
+		rd := s.External("ws_reader", wsGid)
+		rd.IdleOnIO = true
+		s.Go("ws_subscribe", func() (any, error) {
+			wsConn.WriteMessage(websocket.TextMessage, wsSubscribe(q.ID, "race", 1))
+			s.WaitExternalSettled(rd, 500*time.Millisecond)
 			return nil, nil
 		})
 	}
@@ -149,7 +260,13 @@ func stateArg(a string) string {
 func record(cs caseSpec, r execResult) {
 	rec.Eval()
 	rec.Class(fmt.Sprintf("sched_mints=%d_polls=%d_notify=%v", cs.Mints, cs.Polls, cs.Notify))
-	if (cs.Mints >= 2 || (cs.Mints >= 1 && (cs.Notify || cs.Polls > 0))) && r.switches >= 1 {
+	if cs.WS {
+		rec.Class("sched_with_websocket_subscription")
+		if strings.Contains(r.trace, "ws_reader@") {
+			rec.Class("sched_websocket_reader_scheduled")
+		}
+	}
+	if (cs.Mints >= 2 || (cs.Mints >= 1 && (cs.Notify || cs.Polls > 0 || cs.WS))) && r.switches >= 1 {
 		rec.NonTrivial(fmt.Sprintf("%+v|%v", cs, r.choices))
 		rec.Class("sched_nontrivial")
 	}
@@ -165,6 +282,7 @@ func propSched(t *rapid.T) {
 		Notify: rapid.Bool().Draw(t, "notify"),
 		Polled: rapid.Bool().Draw(t, "polled"),
 		Seed:   rapid.Uint64Range(0, 1000).Draw(t, "seed"),
+		WS:     rapid.IntRange(0, 3).Draw(t, "ws_subscribe") == 0,
 	}
 	r := run(t, cs, func(step int, enabled []*sched.Task, cur int) int {
 		return rapid.IntRange(0, len(enabled)-1).Draw(t, "grant")
@@ -248,6 +366,9 @@ var enumCases = []caseSpec{
 	{Mints: 1, Notify: true, Polled: true},
 	{Mints: 2, Notify: true, Polled: false},
 	{Mints: 3, Polled: true},
+	{Mints: 1, WS: true, Polled: false},
+	{Mints: 2, WS: true, Polled: false},
+	{Mints: 1, WS: true, Notify: true, Polled: false},
 }
 
 func TestSchedEnum(t *testing.T) {
